@@ -129,7 +129,9 @@ def metadata(rng, depth=0, maxdepth=3):
         used.add(k)
         r = rng.random()
         if r < 0.2:
-            v = {"s": rng.choice(["", "hello", "ünï", "多", "a\nb", " lead"])}
+            # (strings that look like other values or like library tags must stay strings)
+            v = {"s": rng.choice(["", "hello", "ünï", "多", "a\nb", " lead", "None", "none", "null", "nan", "True", "0",
+                                  "[]", "{}", "NIRGraph", "LIF", "metadata", "trail ", "x" * 300])}
         elif r < 0.35:
             v = pyint(rng.randrange(-5, 1000))
         elif r < 0.5:
@@ -137,7 +139,7 @@ def metadata(rng, depth=0, maxdepth=3):
         elif r < 0.6:
             v = {"b": rng.random() < 0.5}
         elif r < 0.8:
-            v = arr(rng, shape(rng, maxrank=2), rng.choice(["<f8", "<i8", "<f4", "|b1", "<i4"]))
+            v = arr(rng, shape(rng, maxrank=2) if rng.random() < 0.8 else [], rng.choice(["<f8", "<i8", "<f4", "|b1", "<i4"]))
         elif depth < maxdepth:
             v = metadata(rng, depth + 1, maxdepth)
         else:
@@ -283,12 +285,31 @@ def node_recipe(rng, kind, sh=None, dtype=None, meta_p=0.25):
         raise ValueError(kind)
     if kind not in ("AvgPool2d",) or True:
         maybe_meta(rng, kw, meta_p)
+    if kind not in ("Input", "Output") and rng.random() < 0.12:
+        # explicitly passed (stale / arbitrary) derived types: every constructor recomputes them
+        given = {k for k, _ in kw}
+        for fld, port in (("input_type", "input"), ("output_type", "output")):
+            if fld in _init_fields(kind) and fld not in given and rng.random() < 0.7:
+                bogus = [rng.randrange(1, 9) for _ in range(rng.randrange(1, 4))]
+                kw.append([fld, {"d": [[port, {"a": "<i8", "sh": [len(bogus)],
+                                               "x": np.array(bogus, dtype="<i8").tobytes().hex()}]]}])
     return {"type": kind, "kwargs": kw}
+
+
+_FIELDS_CACHE = {}
+
+
+def _init_fields(kind):
+    if kind not in _FIELDS_CACHE:
+        import dataclasses
+        import nir
+        _FIELDS_CACHE[kind] = {f.name for f in dataclasses.fields(getattr(nir, kind)) if f.init}
+    return _FIELDS_CACHE[kind]
 
 
 def shape_arg(rng, s, key):
     """a shape given as ndarray, list, tuple or dict"""
-    c = rng.choice(["ndarray", "ndarray32", "ndarray_narrow", "list", "tuple", "dict"])
+    c = rng.choice(["ndarray", "ndarray32", "ndarray_narrow", "list", "tuple", "dict", "dict_seq"])
     a = {"a": "<i8", "sh": [len(s)], "x": np.array(s, dtype="<i8").tobytes().hex()}
     if c == "ndarray":
         return a
@@ -305,6 +326,10 @@ def shape_arg(rng, s, key):
         return {"l": [pyint(v) for v in s]}
     if c == "tuple":
         return {"t": [pyint(v) for v in s]}
+    if c == "dict_seq":
+        # a dictionary passes through parse_shape_argument unconverted: plain sequences stay plain
+        seq = [pyint(v) for v in s]
+        return {"d": [[key, {"t": seq} if rng.random() < 0.5 else {"l": seq}]]}
     return {"d": [[key, a]]}
 
 
@@ -507,6 +532,20 @@ def random_graph(rng, depth=0, maxdepth=3, max_nodes=8, slash=False, meta_p=0.3)
         else:
             kind = rng.choice(LEAF_KINDS)
             nodes.append([name, node_recipe(rng, kind, meta_p=meta_p)])
+    share = []
+    leafs = [(x, r) for x, r in nodes if r["type"] != "NIRGraph"]
+    if leafs and rng.random() < 0.2:
+        # the same node *object* registered under a second name (shared layer): in the value world it is simply an
+        # equal node; on real objects every observer must still treat the two names independently
+        import copy
+        x, r = rng.choice(leafs)
+        if rng.random() < 0.7 and not any(k == "metadata" for k, _ in r["kwargs"]):
+            r["kwargs"].append(["metadata", metadata(rng)])
+        twin = x + rng.choice(["_twin", "2", ".b", " copy"])
+        if twin not in used and "/" not in twin:
+            used.add(twin)
+            nodes.insert(rng.randrange(0, len(nodes) + 1), [twin, copy.deepcopy(r)])
+            share.append([x, twin])
     names = [x for x, _ in nodes]
     edges = []
     for _ in range(rng.randrange(0, 2 * max(1, len(names)))):
@@ -524,4 +563,7 @@ def random_graph(rng, depth=0, maxdepth=3, max_nodes=8, slash=False, meta_p=0.3)
         x = rng.choice(names)
         edges.append([x, x])
     meta = metadata(rng) if rng.random() < meta_p else None
-    return {"type": "NIRGraph", "nodes": nodes, "edges": edges, "meta": meta}
+    g = {"type": "NIRGraph", "nodes": nodes, "edges": edges, "meta": meta}
+    if share:
+        g["share"] = share
+    return g
